@@ -67,9 +67,17 @@ CHECKS.update({
 })
 CHECKS["C11"] = ("txsim+adtsim",) + CHECKS["C11"][1:3] + ("Trusted: as for the other monitor-mode checks, plus the Vec<Vec<u8>> model of SharedMemory contexts (E4: new_context/free_context/resize_memory/set*/copy/slice histories; growth must cost 3w + w^2/512 and fail without change when gas is short).",) + CHECKS["C11"][4:]
 
+
+CHECKS.update({
+ "C20": ("wrapsim", "fault_enumeration", "Ten wrapper stacks (CacheDB, State, State+bundle, WrapDatabaseRef, WrapDatabaseRef<CacheDB>, CacheDB<CacheDB>, State<CacheDB>, Box<State<Box>>, DatabaseComponents<Arc,Arc>, CacheDB<DatabaseComponents>) over the simulated disk answer sequences of basic / code_by_hash / storage / block_hash (around the 256-block window, far past, future) / has_storage queries issued directly, through `&mut DB`, through a boxed `&mut dyn Database` and through the `_ref` forms, interleaved with real transactions committed through the stack and block-number jumps; every answer must equal the reference (disk + committed changes). A database fault at each bottom-level call index of a query (0..2: a query makes at most three) must surface as an error, never as a default, and the repeated query must then be right.", "Trusted: SimDisk/FaultyDb (also as StateRef/BlockHashRef components), the reference applier. An existing empty account and a missing account are the same answer once state clearing is active; code may be handed out lazily. Known finding D14 (has_storage cannot see that committed changes zeroed every slot below) is listed in known_findings.json.", "deterministic simulation: seeded query/commit histories over wrapper stacks with a database fault at every bottom-level call index of a query", "5 C20"),
+ "C33": ("opsim", "exploration", "Optimism build: regular, deposit and pre-Regolith system transactions with random enveloped bytes over BEDROCK..ISTHMUS and L1-block storage in all layouts (incl. non-zero operator fee scalar/constant). Regular: sender debit = value + beneficiary + base-fee vault + L1 vault + operator vault credits exactly; L1 vault credit = calculate_tx_l1_cost(enveloped) of the public helper; base-fee vault = base fee x gas used. Deposits: total supply grows by exactly the mint; a deposit that reverts or halts at an arbitrary point (low gas limits) persists exactly mint and nonce bump. Database faults at drawn call indices (L1 block info reads, failed-deposit path) must abort without a fabricated state.", E1_NOTE + " Balances stay below 2^128; programs move no ether themselves; deposits that cannot start (gas limit below intrinsic) are not generated.", "deterministic simulation: seeded Optimism transaction histories with out-of-gas points and injected database faults, five-party conservation invariant", "5 C33"),
+})
+
 CHECKS["C06"] = ("journalsim+txsim",) + CHECKS["C06"][1:]
 
 ENGINES = [
+ {"name": "wrapsim", "path": "sim/src/e3_wrap.rs", "serves_properties": ["C20"], "kind_free_text": "E3 wrappers mode: query/commit histories over wrapper stacks with per-call fault enumeration"},
+ {"name": "opsim", "path": "sim/src/op_sim.rs", "serves_properties": ["C33"], "kind_free_text": "Optimism build (target-op): fee conservation and deposit persistence"},
  {"name": "adtsim", "path": "sim/src/e4_adt.rs", "serves_properties": ["C11","C12","C13"], "kind_free_text": "E4: Stack / SharedMemory / Gas model conformance under seeded histories (also under Miri)"},
  {"name": "interpsim", "path": "sim/src/e5_interp.rs", "serves_properties": ["C25"], "kind_free_text": "E5: interpreter + simulated Host failing on schedule; native and under Miri (interp-miri/)"},
  {"name": "statesim", "path": "sim/src/e3_state.rs", "serves_properties": ["C15","C16","C17","C18","C19"], "kind_free_text": "E3: State/BundleState pipeline over a simulated disk with merge/flush/crash schedule"},
@@ -110,7 +118,7 @@ def main():
             na.append({"property_id": p, "reason": "applicable to deterministic simulation (see DESIGN.md section 5) but its check is not built yet; not claimed"})
     m = {
         "version": 1,
-        "setup_cmd": "cd /verif/sim && CARGO_NET_OFFLINE=true cargo build --release --offline && cd /verif/interp-miri && (MIRIFLAGS=-Zmiri-permissive-provenance CARGO_NET_OFFLINE=true cargo +nightly miri run --offline -- 0 0 || true)",
+        "setup_cmd": "cd /verif/sim && CARGO_NET_OFFLINE=true cargo build --release --offline && cargo build --release --offline --features optimism --target-dir target-op && cd /verif/interp-miri && (MIRIFLAGS=-Zmiri-permissive-provenance CARGO_NET_OFFLINE=true cargo +nightly miri run --offline -- 0 0 || true)",
         "hooks": {
             "guard": "--cfg risechain_revm_verif",
             "enable": "RUSTFLAGS / .cargo/config.toml of /verif/sim passes --cfg risechain_revm_verif to every crate built from /repo",
